@@ -291,8 +291,9 @@ def cases(tier):
                                            repeat=2))
         socks = ((128, 1), (248, 2), (1984, 15))
     else:
-        miu_pairs = [(128, 128), (248, 2175), (2175, 129)]
-        socks = ((128, 1), (1984, 15))
+        miu_pairs = list(itertools.product((128, 248, 2175), repeat=2)) + [
+            (2175, 129)]
+        socks = ((128, 1), (248, 2), (1984, 15))
     n = 0
     for (mi, mt), (sm, srw) in itertools.product(miu_pairs, socks):
         for client in ('ini', 'tgt'):
